@@ -1,7 +1,8 @@
 (* C08 -- Filtered output is exact, lossless and partitions the input.  Property theorems only. *)
-From Coq Require Import List NArith.
+From Coq Require Import List NArith Arith.
 From FP Require Import Model.Base Model.Rdh Model.Scanner Model.Writer Spec.RdhRules Spec.Framing
-  Proofs.RdhFacts Proofs.C03_proofs Proofs.C08_proofs.
+  Proofs.RdhFacts Proofs.C03_proofs Proofs.C08_proofs Proofs.Interleave Proofs.C08_partition Proofs.C05_reportless Proofs.C08_run Proofs.C06_mask.
+From FP Require Import Model.Collector Model.CdpRunning Model.Link Model.System Model.SystemView Spec.GroundTruth Proofs.C14_proofs Proofs.C05_run.
 From FP Require Gen.Facts.
 Import ListNotations.
 Open Scope N_scope.
@@ -54,6 +55,108 @@ Theorem C08_filter_is_key_selection : forall src skip pkts,
                               N.land v Gen.Facts.layer_stave_mask) pkts).
 Proof. intros; repeat split; reflexivity. Qed.
 
+(* PARTITION, at full strength: run the filter once per distinct key value (link id / FEE id / masked layer-stave bits) present in a
+   well-framed input.  Then the input's packet sequence is an order-preserving MERGE of packet sequences `sels` whose serialisations
+   are, byte for byte, the outputs: every packet of the input is in exactly one output, unaltered, and each output keeps the input
+   order (Interleave = repeatedly take the head of one of the sequences).  For every flush threshold and source. *)
+Theorem C08_outputs_partition_the_input : forall max (cf : N -> scfg) (key : packet -> N) pkts ks,
+  Forall wf_pkt pkts -> NoDup ks -> (forall p, In p pkts -> In (key p) ks) ->
+  (forall v, In v ks -> sc_skip (cf v) = false /\ forall p, pmatch (cf v) p = (key p =? v)) ->
+  exists sels, Interleave sels pkts /\ map (fun v => written max (cf v) (serialize pkts)) ks = map serialize sels.
+Proof.
+  intros max cf key pkts ks Hwf Hnd Hin Hcf. exists (map (sel key pkts) ks). split.
+  - exact (partition_interleave key pkts ks Hnd Hin).
+  - rewrite map_map. apply map_ext_in. intros v Hv. destruct (Hcf v Hv) as [Hs Hm].
+    etransitivity; [exact (C08_exact max (cf v) pkts Hs Hwf)|].
+    unfold sel. f_equal. apply filter_ext. exact Hm.
+Qed.
+
+(* ... instantiated for the three filter options *)
+Theorem C08_link_outputs_partition : forall max src pkts ks, Forall wf_pkt pkts -> NoDup ks ->
+  (forall p, In p pkts -> In (r_link_id (decode_rdh (p_hdr p))) ks) ->
+  exists sels, Interleave sels pkts /\
+    map (fun v => written max {| sc_filter := Some (F_link v); sc_skip := false; sc_src := src |} (serialize pkts)) ks = map serialize sels.
+Proof.
+  intros max src pkts ks Hwf Hnd Hin.
+  exact (C08_outputs_partition_the_input max (fun v => {| sc_filter := Some (F_link v); sc_skip := false; sc_src := src |})
+           (fun p => r_link_id (decode_rdh (p_hdr p))) pkts ks Hwf Hnd Hin (fun v _ => conj eq_refl (fun p => eq_refl))).
+Qed.
+Theorem C08_fee_outputs_partition : forall max src pkts ks, Forall wf_pkt pkts -> NoDup ks ->
+  (forall p, In p pkts -> In (r_fee_id (decode_rdh (p_hdr p))) ks) ->
+  exists sels, Interleave sels pkts /\
+    map (fun v => written max {| sc_filter := Some (F_fee v); sc_skip := false; sc_src := src |} (serialize pkts)) ks = map serialize sels.
+Proof.
+  intros max src pkts ks Hwf Hnd Hin.
+  exact (C08_outputs_partition_the_input max (fun v => {| sc_filter := Some (F_fee v); sc_skip := false; sc_src := src |})
+           (fun p => r_fee_id (decode_rdh (p_hdr p))) pkts ks Hwf Hnd Hin (fun v _ => conj eq_refl (fun p => eq_refl))).
+Qed.
+(* layer/stave filter: the values are the distinct masked FEE ids (layer and stave bits) *)
+Theorem C08_stave_outputs_partition : forall max src pkts ks, Forall wf_pkt pkts -> NoDup ks ->
+  (forall v, In v ks -> N.land v Gen.Facts.layer_stave_mask = v) ->
+  (forall p, In p pkts -> In (N.land (r_fee_id (decode_rdh (p_hdr p))) Gen.Facts.layer_stave_mask) ks) ->
+  exists sels, Interleave sels pkts /\
+    map (fun v => written max {| sc_filter := Some (F_stave v); sc_skip := false; sc_src := src |} (serialize pkts)) ks = map serialize sels.
+Proof.
+  intros max src pkts ks Hwf Hnd Hmask Hin.
+  refine (C08_outputs_partition_the_input max (fun v => {| sc_filter := Some (F_stave v); sc_skip := false; sc_src := src |})
+           (fun p => N.land (r_fee_id (decode_rdh (p_hdr p))) Gen.Facts.layer_stave_mask) pkts ks Hwf Hnd Hin _).
+  intros v Hv. split; [reflexivity|]. intros p. change (pmatch _ p) with
+    (N.land (r_fee_id (decode_rdh (p_hdr p))) Gen.Facts.layer_stave_mask =? N.land v Gen.Facts.layer_stave_mask).
+  rewrite (Hmask v Hv). reflexivity.
+Qed.
+
+(* non-vacuity: the two-link example input is the merge of its two outputs *)
+(* ONE WHOLE WRITING RUN (filter + output, no check, no view) of a well-framed input whose first header is recognised: in every delivery
+   order `a` of the statistics (any schedule of the reader and the collector) the run ends with zero errors, nothing displayed, exit
+   status 0 -- whatever any-errors exit code is configured -- and the bytes written are exactly the selected packets, for every flush
+   threshold.  The size bounds are those of the 32-bit counters of the statistics (C14). *)
+Theorem C08_whole_run : forall (c : run_cfg) pkts ff max a,
+  Forall wf_pkt pkts -> N.of_nat (length pkts) < U32_MAX -> pay_all pkts < U32_MAX ->
+  (forall p r, pkts = p :: r -> known_sysid (r_system_id (hdr p)) = true) -> pkts <> [] ->
+  recognised (serialize pkts) = true -> rc_counts c = {| cc_cdps := None; cc_pht := None |} ->
+  sc_skip (rc_scan c) = false -> Interleave (rl_streams c RL_write (serialize pkts)) a ->
+  (exists s, run_reportless ff c RL_write (serialize pkts) = R_done s [] 0 /\ finish_rl ff c a = R_done s [] 0 /\
+             k_total s = 0 /\ k_errors s = [] /\ k_fatal s = None /\ k_custom s = []) /\
+  written max (rc_scan c) (serialize pkts) = serialize (filter (pmatch (rc_scan c)) pkts).
+Proof.
+  exact (fun c pkts ff max a Hwf Hn Hpay Hknown Hne Hrec Hcustom =>
+           c08_whole_run c pkts eq_refl eq_refl Hwf Hn Hpay Hknown Hne Hrec Hcustom ff max a).
+Qed.
+
+(* non-vacuity of C08_whole_run: three packets on links 0, 0, 1 (the second with its priority bit set: the writer does not judge the data),
+   `--filter-link 1 -o ... -E 3`: the hypotheses hold, the run ends with exit status 0 and the 64 bytes of the third packet are written *)
+Definition c08_hdr (link prio : N) : list N :=
+  [7;64;42;80;prio;32;0;0; 64;0;64;0;link;0;24;0] ++ repeat 0 8 ++ [2;0;0;0;0;0;0;0; 3;106;0;0;0;0;0;0] ++ repeat 0 24.
+Definition c08_pkts : list packet :=
+  [ {| p_hdr := c08_hdr 0 0; p_payload := [] |}; {| p_hdr := c08_hdr 0 1; p_payload := [] |}; {| p_hdr := c08_hdr 1 1; p_payload := [] |} ].
+Definition c08_cfg : run_cfg :=
+  {| rc_scan := {| sc_filter := Some (F_link 1); sc_skip := false; sc_src := Src_pipe |};
+     rc_check := {| v_running := false; v_target := T_none; v_period := None; v_custom_version := None; v_chip_count := None; v_chip_orders := None |};
+     rc_mute := false; rc_cap := 0; rc_filter := None; rc_exit := Some 3; rc_counts := {| cc_cdps := None; cc_pht := None |} |}.
+Example C08_whole_run_nonvacuous :
+  Forall wf_pkt c08_pkts /\ (forall p r, c08_pkts = p :: r -> known_sysid (r_system_id (hdr p)) = true) /\
+  recognised (serialize c08_pkts) = true /\
+  Interleave (rl_streams c08_cfg RL_write (serialize c08_pkts)) (concat (rl_streams c08_cfg RL_write (serialize c08_pkts))) /\
+  (exists s, run_reportless true c08_cfg RL_write (serialize c08_pkts) = R_done s [] 0) /\
+  written 2 (rc_scan c08_cfg) (serialize c08_pkts) = c08_hdr 1 1.
+Proof.
+  split; [repeat constructor; apply wf_pktb_sound; vm_compute; reflexivity|].
+  split; [intros p r E; injection E as <- _; vm_compute; reflexivity|].
+  split; [vm_compute; reflexivity|]. split; [apply interleave_concat|].
+  split; [eexists; vm_compute; reflexivity|vm_compute; reflexivity].
+Qed.
+
+Example C08_partition_nonvacuous :
+  Forall wf_pkt f1_pkts /\ NoDup [0; 1] /\ (forall p, In p f1_pkts -> In (r_link_id (decode_rdh (p_hdr p))) [0; 1]) /\
+  map (fun v => written 3 {| sc_filter := Some (F_link v); sc_skip := false; sc_src := Src_file |} (serialize f1_pkts)) [0; 1] =
+    [f1_hdr 0; f1_hdr 1].
+Proof.
+  split; [exact f1_wf|]. split.
+  - constructor; [cbn; intros [H|[]]; discriminate|]. constructor; [intros []|constructor].
+  - split; [|vm_compute; reflexivity].
+    intros p Hp. unfold f1_pkts in Hp. destruct Hp as [<-|[<-|[]]]; vm_compute; tauto.
+Qed.
+
 Example C08_nonvacuous :
   Forall wf_pkt f1_pkts /\
   written 1048576 {| sc_filter := Some (F_link 1); sc_skip := false; sc_src := Src_pipe |} (serialize f1_pkts) = f1_hdr 1 /\
@@ -66,6 +169,15 @@ Proof. split; [exact f1_wf|]. split; vm_compute; reflexivity. Qed.
 Theorem C08_single_consumer_source_shape : Gen.Facts.proto_single_data_consumer = true.
 Proof. exact eq_refl. Qed.
 
+
+(* the key of the layer/stave filter (`--filter-its-stave`): two FEE ids are matched together exactly when they agree on the six stave
+   bits 5:0 and the three layer bits 14:12 of the documented FEE-id layout; the mask is re-read from the source on every run
+   (fact layer_stave_mask), so a filter that merges staves n and n+32 of a layer (seed C06-I) no longer type-checks here *)
+Theorem C08_stave_filter_key : forall a b,
+  N.land a Gen.Facts.layer_stave_mask = N.land b Gen.Facts.layer_stave_mask <->
+  (forall i, i < 6 \/ 12 <= i < 15 -> N.testbit a i = N.testbit b i).
+Proof. exact (stave_filter_key_when eq_refl). Qed.
+
 Print Assumptions C08_exact.
 Print Assumptions C08_roundtrip.
 Print Assumptions C08_wellframed.
@@ -73,3 +185,10 @@ Print Assumptions C08_idempotent.
 Print Assumptions C08_partition_count.
 Print Assumptions C08_filter_is_key_selection.
 Print Assumptions C08_single_consumer_source_shape.
+Print Assumptions C08_outputs_partition_the_input.
+Print Assumptions C08_link_outputs_partition.
+Print Assumptions C08_fee_outputs_partition.
+Print Assumptions C08_stave_outputs_partition.
+Print Assumptions C08_whole_run.
+Print Assumptions C08_whole_run_nonvacuous.
+Print Assumptions C08_stave_filter_key.
